@@ -4,10 +4,12 @@
 
   `Props/C02.lean` states stream logic and the reduction for an arbitrary packet
   stream and an arbitrary receiver state.  Here the packets are THOSE THE FRONT
-  END PRODUCED from the bytes (`Front.readEnc`: `Wire` for spec-shaped input,
-  go-codec's typed decoding `Codec` for everything else — maps for arrays,
-  authenticators of any length, byte strings as integer arrays, …) and the state
-  is the one `processHeader` returned for the header decoded from these bytes.
+  END PRODUCED from the bytes (`Front.readEnc`: go-codec's typed decoding `Codec`,
+  in go-codec's order and with its leniencies and limits — maps for arrays,
+  authenticators of any length, byte strings as integer arrays, the depth budget
+  for reserved extras, …; the spec-shaped reader `Wire` only where `Codec` calls
+  the input unmodelled) and the state is the one `processHeader` returned for the
+  header decoded from these bytes.
 
   Statements only; proofs in Saltpack/Proofs/CodecBytesAuth.lean, Receiver.lean, Authentic.lean.
 -/
@@ -69,11 +71,11 @@ theorem C02_clean_end_iff_complete_bytes (P : Prims) (valid : Validator) (kr : K
 
 /-- the all-at-once form (`Open`) on what the front end read returns plaintext
     only if the streaming form on the same bytes ended cleanly, and then exactly
-    what the streaming form released -/
+    what the streaming form released, with the key identity the streaming form reports -/
 theorem C02_all_at_once_only_if_clean_bytes (P : Prims) (valid : Validator) (kr : Keyring) (msg : Bytes)
     (hr : HeaderRead EncHeader) (ps : PStream EncBlock) (hread : Front.readEnc msg = .ok (hr, ps))
     (m : MKI) (pt : Bytes) (h : Decrypt.openAll P valid kr hr ps = .ok (m, pt)) :
-    ∃ r, Decrypt.openBytes P valid kr msg = .ok r ∧ r.err = none ∧ r.released = pt := by
+    ∃ r, Decrypt.openBytes P valid kr msg = .ok r ∧ r.err = none ∧ r.released = pt ∧ r.mki = some m := by
   refine ⟨_, dec_openBytes_of_read hread, ?_⟩
   unfold Decrypt.openAll at h
   generalize Decrypt.openStream P valid kr hr ps = r at h
@@ -123,7 +125,7 @@ theorem C02_authentic_or_break_bytes (P : Prims) (hP : P.Lawful) (valid : Valida
   ciphertext, then three surplus elements that go-codec swallows), the
   authenticator list itself a fixmap of one pair whose "authenticators" are a
   3-byte bin and an array of two integers (go-codec pads both to 32 bytes).
-  `Wire` calls it unmodelled; the front end decodes it; no keyring holds a key, so
+  `Wire` calls it unmodelled; the front end decodes it (through `Codec`); no keyring holds a key, so
   the byte-level run refuses at the header — first disjunct of every theorem above. -/
 
 def hostileEncMsg : Bytes :=
